@@ -31,6 +31,22 @@ func c05Code(c *Ctx, ev *c05Eval) {
 	for _, f := range pgpLengthThresholds(c.P) {
 		c.Check(f.OK, "R05n", f.Key, f.Pos, "", f.Detail)
 	}
+	c.Rule("R05p", "an XML signature method is named in the xmldsig# namespace only for RSA keys, and rsa-sha1 never in xmldsig-more# (RFC 3275, RFC 4051)", 2)
+	for _, f := range xmldsigNamespaces(c.P, ev) {
+		c.Check(f.OK, "R05p", f.Key, f.Pos, "", f.Detail, f.Path...)
+	}
+	c.Rule("R05q", "the MSI stream order compares min(lenA, lenB)/2 code units of the recorded name lengths, terminator included", 1)
+	for _, f := range msiSortBound(c.P) {
+		c.Check(f.OK, "R05q", f.Key, f.Pos, "", f.Detail)
+	}
+	c.Rule("R05r", "a JAR manifest section found by its blank-line delimiter includes the delimiter (conditional on that idiom)", 0)
+	fs, idiom := jarSectionsKeepBlankLine(c.P)
+	for _, f := range fs {
+		c.Check(f.OK, "R05r", f.Key, f.Pos, "", f.Detail)
+	}
+	if idiom == 0 {
+		c.Note("R05r: no manifest section is cut at a searched blank-line delimiter; the rule judges only that idiom and is silent on a splitter of another shape")
+	}
 }
 
 // ------------------------------------------------------------------------------ R05g
